@@ -92,6 +92,17 @@ func famSession(sc *scn.Scenario, em func(vt.Ev)) {
 		}
 	}
 	runtime.GOMAXPROCS(procs)
+	// one history in three runs on engines with a small sample budget (EngineOpts.MaxSamples = 20: less than most of
+	// the range queries return, more than every instant query returns) - the long-lived engine and the fresh ones alike
+	if h := fnv.New32a(); sc.CfgInt("maxsamples", 0) == 0 {
+		h.Write([]byte(sc.ID))
+		if (h.Sum32()>>5)%3 == 0 {
+			if sc.Cfg == nil {
+				sc.Cfg = map[string]any{}
+			}
+			sc.Cfg["maxsamples"] = float64(20)
+		}
+	}
 	// whatever an engine keeps in pools between two queries is dropped by the garbage collector: a history is
 	// replayed with collections made rare, so that pooled state lives from one query to the next as it does in a
 	// process that allocates less than this harness (snapshots after every operation)
